@@ -73,14 +73,12 @@ Proof. exact Props.C12.C12_python_format_type. Qed.
 Print Assumptions Props.C12.C12_python_format_type.
 Goal forall (uc : unicode) (cfg : py_config) (pd : parsed) (uses defs : list str),
     c12_py_observe uc cfg pd = Ok (uses, defs) -> c12_py_dom cfg (items_of pd) = true ->
-    c12_py_known cfg pd = None ->
     c12_good uses defs = true.
 Proof. exact Props.C12.C12_python. Qed.
 Print Assumptions Props.C12.C12_python.
-Goal c12_py_known Proofs.C12.c12_py_cfg1 Proofs.C12.c12_py_full_pd = None /\
-  c12_py_dom Proofs.C12.c12_py_cfg1 (items_of Proofs.C12.c12_py_full_pd) = true /\
+Goal c12_py_dom Proofs.C12.c12_py_cfg1 (items_of Proofs.C12.c12_py_full_pd) = true /\
   exists uses defs, c12_py_observe uc_exec Proofs.C12.c12_py_cfg1 Proofs.C12.c12_py_full_pd = Ok (uses, defs) /\
-                    In (lit "T") uses /\ In (lit "TypeVar") uses /\ In (lit "parse_rfc3339") uses /\
+                    In (lit "T") uses /\ In (lit "U") uses /\ In (lit "TypeVar") uses /\ In (lit "parse_rfc3339") uses /\
                     In (lit "deserialize_binary_data") uses /\ In (lit "datetime") uses /\
                     c12_good uses defs = true.
 Proof. exact Props.C12.C12_python_nonvacuous. Qed.
@@ -92,18 +90,24 @@ Goal forall (uc : unicode) (cfg : py_config) (pd : parsed) (ds : list py_decl) (
       In u (c12_py_defs (py_type_variables st) (c12_py_fns st) (c12_py_imported st)).
 Proof. exact Props.C12.C12_python_body_partial. Qed.
 Print Assumptions Props.C12.C12_python_body_partial.
-Goal c12_py_known Proofs.C12.c12_py_cfg0 Proofs.C12.c12_py_alias_pd = Some "C12-python-alias-typevar"%string /\
+Goal c12_py_known Proofs.C12.c12_py_cfg0 Proofs.C12.c12_py_alias_pd = None /\
   c12_py_dom Proofs.C12.c12_py_cfg0 (items_of Proofs.C12.c12_py_alias_pd) = true /\
-  exists uses defs, c12_py_observe uc_exec Proofs.C12.c12_py_cfg0 Proofs.C12.c12_py_alias_pd = Ok (uses, defs) /\
-                    In (lit "T") uses /\ ~ In (lit "T") defs /\ c12_good uses defs = false.
-Proof. exact Props.C12.C12_python_alias_typevar_refuted. Qed.
-Print Assumptions Props.C12.C12_python_alias_typevar_refuted.
-Goal c12_py_known Proofs.C12.c12_py_cfg0 Proofs.C12.c12_py_default_pd = Some "C12-python-default-translation"%string /\
+  py_generate uc_exec Proofs.C12.c12_py_cfg0 Proofs.C12.c12_py_alias_pd = Ok Proofs.C12.c12_py_alias_text /\
+  c12_py_observe uc_exec Proofs.C12.c12_py_cfg0 Proofs.C12.c12_py_alias_pd =
+    Ok ([lit "TypeVar"; lit "List"; lit "T"], [lit "T"; lit "List"; lit "TypeVar"]) /\
+  c12_good [lit "TypeVar"; lit "List"; lit "T"] [lit "T"; lit "List"; lit "TypeVar"] = true.
+Proof. exact Props.C12.C12_python_alias_typevar_fixed. Qed.
+Print Assumptions Props.C12.C12_python_alias_typevar_fixed.
+Goal c12_py_known Proofs.C12.c12_py_cfg0 Proofs.C12.c12_py_default_pd = None /\
   c12_py_dom Proofs.C12.c12_py_cfg0 (items_of Proofs.C12.c12_py_default_pd) = true /\
-  exists uses defs, c12_py_observe uc_exec Proofs.C12.c12_py_cfg0 Proofs.C12.c12_py_default_pd = Ok (uses, defs) /\
-                    In (lit "parse_rfc3339") uses /\ ~ In (lit "parse_rfc3339") defs /\ c12_good uses defs = false.
-Proof. exact Props.C12.C12_python_default_translation_refuted. Qed.
-Print Assumptions Props.C12.C12_python_default_translation_refuted.
+  py_generate uc_exec Proofs.C12.c12_py_cfg0 Proofs.C12.c12_py_default_pd = Ok Proofs.C12.c12_py_default_text /\
+  contains_sub (lit "def parse_rfc3339(date_str: str) -> datetime:") Proofs.C12.c12_py_default_text = true /\
+  contains_sub (lit "def serialize_datetime_data(utc_time: datetime) -> str:") Proofs.C12.c12_py_default_text = true /\
+  c12_py_observe uc_exec Proofs.C12.c12_py_cfg0 Proofs.C12.c12_py_default_pd =
+    Ok (Proofs.C12.c12_py_default_uses, Proofs.C12.c12_py_default_defs) /\
+  c12_good Proofs.C12.c12_py_default_uses Proofs.C12.c12_py_default_defs = true.
+Proof. exact Props.C12.C12_python_default_translation_fixed. Qed.
+Print Assumptions Props.C12.C12_python_default_translation_fixed.
 Goal forall (uc : unicode) (cfg : py_config) (st : py_state) (pd : parsed) (text : str) (st' : py_state),
     py_generate_multi uc cfg st pd = Ok (text, st') <->
     exists ds, Proofs.C12Multi.py_multi_decls uc cfg st pd = Ok (ds, st') /\
@@ -125,7 +129,7 @@ Print Assumptions Props.C12.C12_multi_python_state_ok_meaning.
 Goal forall (uc : unicode) (cfg : py_config) (st0 : py_state) (pd : parsed),
     Proofs.C12Multi.c12_py_state_ok st0 = true -> c12_py_dom cfg (items_of pd) = true ->
     (forall uses defs, Proofs.C12Multi.c12_py_observe_multi uc cfg st0 pd = Ok (uses, defs) ->
-       c12_py_known cfg pd = None -> c12_good uses defs = true) /\
+       c12_good uses defs = true) /\
     (forall ds st, Proofs.C12Multi.py_multi_decls uc cfg st0 pd = Ok (ds, st) -> Proofs.C12Multi.c12_py_state_ok st = true).
 Proof. exact Props.C12.C12_multi_python_file. Qed.
 Print Assumptions Props.C12.C12_multi_python_file.
@@ -143,7 +147,7 @@ Goal forall (uc : unicode) (cfg : py_config) (st0 : py_state) (plan : list out_p
          text = py_begin_file cfg ++ py_write_all_imports st_i' ++ py_write_custom_translations st_i' ++
                 List.concat (map py_render_decl ds) /\
          Proofs.C12Multi.c12_py_observe_multi uc cfg st_i (op_data p) = Ok (uses, defs) /\
-         (c12_py_known cfg (op_data p) = None -> c12_good uses defs = true)) /\
+         c12_good uses defs = true) /\
     (forall st', fin = Ok st' -> Forall (fun p => c12_py_dom cfg (items_of (op_data p)) = true) plan ->
        Proofs.C12Multi.c12_py_state_ok st' = true).
 Proof. exact Props.C12.C12_multi_python. Qed.
@@ -155,7 +159,6 @@ Goal exists plan t_alpha st_fin,
     Proofs.C12MultiWitness.y_plan Python Proofs.C12MultiWitness.ws_py_plain = Some plan /\
     map op_crate plan = [lit "alpha"; lit "beta"] /\
     forallb (fun p => c12_py_dom Proofs.C12MultiWitness.y_py_cfg (items_of (op_data p))) plan = true /\
-    forallb (fun p => Proofs.C12MultiWitness.y_none (c12_py_known Proofs.C12MultiWitness.y_py_cfg (op_data p))) plan = true /\
     generate_crates (Proofs.C12Multi.py_multi_gen uc_exec Proofs.C12MultiWitness.y_py_cfg) py_empty_state plan =
       ([(lit "alpha.py", Writer.Generated t_alpha); (lit "beta.py", Writer.Generated Proofs.C12MultiWitness.y_beta_plain_py)], Ok st_fin) /\
     py_type_variables st_fin = [lit "T"] /\ py_custom_types st_fin = [lit "datetime"] /\
@@ -170,7 +173,6 @@ Goal exists plan t_alpha t_beta st_fin,
     Proofs.C12MultiWitness.y_plan Python Proofs.C12MultiWitness.ws_py_again = Some plan /\
     map op_crate plan = [lit "alpha"; lit "beta"] /\
     forallb (fun p => c12_py_dom Proofs.C12MultiWitness.y_py_cfg (items_of (op_data p))) plan = true /\
-    forallb (fun p => Proofs.C12MultiWitness.y_none (c12_py_known Proofs.C12MultiWitness.y_py_cfg (op_data p))) plan = true /\
     generate_crates (Proofs.C12Multi.py_multi_gen uc_exec Proofs.C12MultiWitness.y_py_cfg) py_empty_state plan =
       ([(lit "alpha.py", Writer.Generated t_alpha); (lit "beta.py", Writer.Generated t_beta)], Ok st_fin) /\
     py_type_variables st_fin = [lit "T"; lit "U"] /\
@@ -198,7 +200,6 @@ Goal exists plan p_alpha p_beta t_alpha st1 uses defs,
     Proofs.C12MultiWitness.y_plan Python Proofs.C12MultiWitness.ws_py_taint = Some plan /\ plan = [p_alpha; p_beta] /\
     c12_py_dom Proofs.C12MultiWitness.y_py_cfg (items_of (op_data p_alpha)) = false /\
     c12_py_dom Proofs.C12MultiWitness.y_py_cfg (items_of (op_data p_beta)) = true /\
-    c12_py_known Proofs.C12MultiWitness.y_py_cfg (op_data p_beta) = None /\
     py_generate_multi uc_exec Proofs.C12MultiWitness.y_py_cfg py_empty_state (op_data p_alpha) = Ok (t_alpha, st1) /\
     Proofs.C12Multi.c12_py_state_ok st1 = false /\
     Proofs.C12Multi.c12_py_observe_multi uc_exec Proofs.C12MultiWitness.y_py_cfg st1 (op_data p_beta) = Ok (uses, defs) /\
